@@ -42,6 +42,38 @@ PKG = os.path.join(SRC, "pptx")
 if SRC not in sys.path:
     sys.path.insert(0, SRC)
 
+# entities dictionary entries of xml.sax.saxutils.escape that the model knows: key -> (flag letter, value)
+ENTITY_FLAGS = {'"': ("q", "&quot;"), "\t": ("t", "&#9;"), "\n": ("l", "&#10;"), "\r": ("r", "&#13;")}
+
+
+def esc_flags(esc):
+    """'sax' + subset of qtlr -> (q, t, l, r)"""
+    return tuple(f in esc[3:] for f in "qtlr")
+
+
+def coq_esc(esc):
+    if esc is None:
+        return "EscNone"
+    return "EscSaxWith %s" % " ".join("true" if b else "false" for b in esc_flags(esc))
+
+
+def table_ok(ctx, esc, exact=True):
+    """The decision table of model/Escape.v (sink_ok / markup_ok) for caller text."""
+    if esc is None:
+        return False
+    q, t_, l, r = esc_flags(esc)
+    if not exact:
+        return q if ctx == "AttrDq" else True
+    return (q and t_ and l and r) if ctx == "AttrDq" else r
+
+
+def py_escape(esc, s):
+    from xml.sax.saxutils import escape as _esc
+    if esc is None or esc == "none":
+        return s
+    return _esc(s, {k: v for k, (fl, v) in ENTITY_FLAGS.items() if fl in esc[3:]})
+
+
 XML_START = re.compile(r"\s*<(\?xml|[A-Za-z_][\w.\-]*(:[A-Za-z_][\w.\-]*)?[\s/>])")
 MAX_DEPTH = 14
 
@@ -424,22 +456,23 @@ class Scanner:
             if not e.args or e.keywords and any(k.arg != "entities" for k in e.keywords):
                 raise Unmod("escape() call shape: " + ast.unparse(e))
             ent = e.args[1] if len(e.args) > 1 else (e.keywords[0].value if e.keywords else None)
-            kind = "sax"
+            kind, d = "sax", {}
             if ent is not None:
                 if not (isinstance(ent, ast.Dict) and all(isinstance(k, ast.Constant) and isinstance(v, ast.Constant)
                                                          for k, v in zip(ent.keys, ent.values))):
                     raise Unmod("escape() entities not a literal dict: " + ast.unparse(e))
                 d = {k.value: v.value for k, v in zip(ent.keys, ent.values)}
-                if d == {'"': "&quot;"}:
-                    kind = "saxq"
-                elif d:
-                    raise Unmod("escape() entities dict not modelled: %r" % d)
+                for key, val in d.items():
+                    if ENTITY_FLAGS.get(key, (None, None))[1] != val:
+                        raise Unmod("escape() entities entry not modelled: %r -> %r (modelled: %s)" % (
+                            key, val, ", ".join("%r -> %r" % (k2, v2[1]) for k2, v2 in ENTITY_FLAGS.items())))
+                kind = "sax" + "".join(fl for key, (fl, _v) in ENTITY_FLAGS.items() if key in d)
             inner = self.ev(e.args[0], cx, depth + 1)
             out = []
             for k, v in inner:
                 if k == "lit":
                     from xml.sax.saxutils import escape as _esc
-                    out.append(L(_esc(v, {'"': "&quot;"}) if kind == "saxq" else _esc(v)))
+                    out.append(L(_esc(v, d)))
                 else:
                     h = v.copy()
                     if h.cls in ("param", "opaque"):
@@ -1164,9 +1197,10 @@ class EP:
     dom: 'attr' (stored in an attribute), 'text' (stored as element text), 'file' (a file name).
     locate(obj) -> JSON-able locator; relocate(prs, loc) -> object of the re-opened file."""
 
-    def __init__(self, key, dom, make, read, where="shape", roots=None, doc=""):
+    def __init__(self, key, dom, make, read, where="shape", roots=None, doc="", c04=False):
         self.key, self.dom, self.make, self.read, self.where, self.doc = key, dom, make, read, where, doc
         self._roots = roots
+        self.c04 = c04      # text-frame setters: control characters have documented translations (property C04)
 
     def locate(self, env, obj):
         if self.where == "shape":
@@ -1412,41 +1446,41 @@ def build_entry_points():
         tb = slide.shapes.add_textbox(E(), E(), E(), E())
         tb.text_frame.text = s
         return tb
-    add("text_frame.text", "text", mk_tf_text, lambda sh: sh.text_frame.text)
+    add("text_frame.text", "text", mk_tf_text, lambda sh: sh.text_frame.text, c04=True)
 
     def mk_run_text(env, s):
         slide, _ = env.slide()
         tb = slide.shapes.add_textbox(E(), E(), E(), E())
         tb.text_frame.paragraphs[0].add_run().text = s
         return tb
-    add("run.text", "text", mk_run_text, lambda sh: sh.text_frame.paragraphs[0].runs[0].text)
+    add("run.text", "text", mk_run_text, lambda sh: sh.text_frame.paragraphs[0].runs[0].text, c04=True)
 
     def mk_para_text(env, s):
         slide, _ = env.slide()
         sh = slide.shapes.add_shape(MSO_SHAPE.OVAL, E(), E(), E(), E())
         sh.text_frame.paragraphs[0].text = s
         return sh
-    add("paragraph.text", "text", mk_para_text, lambda sh: sh.text_frame.paragraphs[0].text)
+    add("paragraph.text", "text", mk_para_text, lambda sh: sh.text_frame.paragraphs[0].text, c04=True)
 
     def mk_title_text(env, s):
         slide, _ = env.slide(0)
         slide.shapes.title.text = s
         return slide.shapes.title
-    add("placeholder.text", "text", mk_title_text, lambda sh: sh.text)
+    add("placeholder.text", "text", mk_title_text, lambda sh: sh.text, c04=True)
 
     def mk_cell_text(env, s):
         slide, _ = env.slide()
         gf = slide.shapes.add_table(2, 2, E(), E(), E(), E())
         gf.table.cell(1, 1).text = s
         return gf
-    add("table.cell.text", "text", mk_cell_text, lambda gf: gf.table.cell(1, 1).text)
+    add("table.cell.text", "text", mk_cell_text, lambda gf: gf.table.cell(1, 1).text, c04=True)
 
     def mk_notes(env, s):
         slide, _ = env.slide()
         slide.notes_slide.notes_text_frame.text = s
         return slide
     add("notes_text_frame.text", "text", mk_notes, lambda sl: sl.notes_slide.notes_text_frame.text, where="slide",
-        roots=lambda env, sl: [sl.notes_slide.part._element])
+        roots=lambda env, sl: [sl.notes_slide.part._element], c04=True)
 
     # ---- charts: strings that go through the XML writer templates
     def ser_name(gf):
@@ -1530,19 +1564,19 @@ def build_entry_points():
         gf = _add_chart(env, "cat", 0)
         gf.chart.chart_title.text_frame.text = s
         return gf
-    add("chart_title.text_frame.text", "text", mk_chart_title, lambda gf: gf.chart.chart_title.text_frame.text, roots=_chart_roots)
+    add("chart_title.text_frame.text", "text", mk_chart_title, lambda gf: gf.chart.chart_title.text_frame.text, roots=_chart_roots, c04=True)
 
     def mk_axis_title(env, s):
         gf = _add_chart(env, "cat", 0)
         gf.chart.value_axis.axis_title.text_frame.text = s
         return gf
-    add("axis_title.text_frame.text", "text", mk_axis_title, lambda gf: gf.chart.value_axis.axis_title.text_frame.text, roots=_chart_roots)
+    add("axis_title.text_frame.text", "text", mk_axis_title, lambda gf: gf.chart.value_axis.axis_title.text_frame.text, roots=_chart_roots, c04=True)
 
     def mk_dlbl(env, s):
         gf = _add_chart(env, "cat", 0)
         gf.chart.plots[0].series[0].points[0].data_label.text_frame.text = s
         return gf
-    add("data_label.text_frame.text", "text", mk_dlbl, lambda gf: gf.chart.plots[0].series[0].points[0].data_label.text_frame.text, roots=_chart_roots)
+    add("data_label.text_frame.text", "text", mk_dlbl, lambda gf: gf.chart.plots[0].series[0].points[0].data_label.text_frame.text, roots=_chart_roots, c04=True)
 
     def mk_dlbls_nf(env, s):
         gf = _add_chart(env, "cat", 0)
@@ -1576,8 +1610,12 @@ def build_entry_points():
 
 # =============================================================================== dynamic part
 MARK_RE = re.compile(r"Zq[0-9]+qZ")
-HOT = "&<>\"x"
-HOT_FORMS = {"&<>\"x": None, "&amp;&lt;&gt;\"x": "sax", "&amp;&lt;&gt;&quot;x": "saxq"}
+SIG_PREFIXES = ("sink:", "attr-ws-normalised:", "text-cr-normalised:")
+HOT = "&<>\"\t\n\rx"
+HOT_FORMS = {HOT: None}
+for _bits in range(16):
+    _k = "sax" + "".join(f for i, f in enumerate("qtlr") if _bits & (8 >> i))
+    HOT_FORMS[py_escape(_k, HOT)] = _k
 
 
 def marker(i):
@@ -1879,15 +1917,18 @@ def main():
                     if mm and mm.group(0) in by_marker:
                         tail = val[mm.end():]
                         form = [f for f in HOT_FORMS if tail.startswith(f)]
-                        seen_esc[gi].add(HOT_FORMS[form[0]] if form else "?" + tail[:24])
+                        seen_esc[gi].add(HOT_FORMS[form[0]] if form else "?" + repr(tail[:30]))
         u["seen_esc"] = seen_esc
     # ---- sinks
     kf_path = os.path.join(VERIF, "known_findings.json")
     known_sigs = set()
     if os.path.exists(kf_path):
         for e in json.load(open(kf_path)):
-            if e.get("property") == "C05" and e.get("status") == "known" and str(e.get("signature", "")).startswith("sink:"):
-                known_sigs.add(e["signature"])
+            sg = str(e.get("signature", ""))
+            if e.get("property") == "C05" and e.get("status") == "known":
+                for pfx in SIG_PREFIXES:
+                    if sg.startswith(pfx):
+                        known_sigs.add(sg[len(pfx):])
     sinks, comps, const_holes = [], [], []
     prov = Provenance(sc)
     for u in units:
@@ -1917,7 +1958,7 @@ def main():
             if h.cls in ("int", "const", "enum"):
                 esc, origin = "NotText", h.cls + ": " + h.why
             elif tainted:
-                esc = {None: "EscNone", "sax": "EscSax", "saxq": "EscSaxQuot"}[h.esc]
+                esc = coq_esc(h.esc)
                 origin = "caller text"
                 seen = u["seen_esc"][hi]
                 if seen != {h.esc}:
@@ -1938,11 +1979,15 @@ def main():
             else:
                 unmodelled.append("%s: hole %r was never exercised by the entry-point run (function calls: %d)" % (where, h.src, u["calls"]))
                 continue
-            sig = "sink:%s:%s:%s" % (u["func"], slot, h.src)
+            name = "%s:%s:%s" % (u["func"], slot, h.src)
+            sig = "sink:" + name
+            m_ok = esc == "NotText" or table_ok(ctx, h.esc, exact=False)
+            x_ok = esc == "NotText" or table_ok(ctx, h.esc, exact=True)
             sinks.append({"id": len(sinks), "sig": sig, "where": where, "mod": u["mod"], "func": u["func"], "line": h.line or u["line"],
                           "slot": slot, "path": info["path"], "ctx": ctx, "esc": esc, "applied": h.esc or "none", "src": h.src,
                           "class": h.cls, "origin": origin, "entry_points": tainted, "observed": sorted(u["obs"][hi])[:6],
-                          "known": sig in known_sigs, "partial": partial, "probe": info.get("probe")})
+                          "known": name in known_sigs, "partial": partial, "probe": info.get("probe"), "name": name,
+                          "markup_ok": m_ok, "exact_ok": x_ok})
     # entry points: which sinks each one reaches
     ep_meta = {}
     for ep in eps:
@@ -1974,7 +2019,7 @@ def main():
     print("tx_c05: %d templates, %d sinks (%d receive caller text, %d rejected by the table, %d known), %d compositions, "
           "%d entry points (%d reach a template), %d unmodelled" % (
               len(units), len(sinks), sum(1 for s in sinks if s["origin"] == "caller text"),
-              sum(1 for s in sinks if s["esc"] in ("EscNone",) or (s["esc"] == "EscSax" and s["ctx"] == "AttrDq")),
+              sum(1 for s in sinks if not s["exact_ok"]),
               sum(1 for s in sinks if s["known"]), len(comps), len(eps),
               sum(1 for v in ep_meta.values() if v["sinks"]), len(unmodelled)))
 
